@@ -147,7 +147,8 @@ Section Manip.
       if Nat.ltb 1 (List.length (am s)) then
         do r <- split_fused max_am s (am s) (coefs s) [] [] [];
         let '(ka, kc, out) := r in
-        unc_spdf_shells max_am t (mkShell (split_function_type (ftype s) ka) (region s) ka (exps s) kc :: (news ++ out))
+        (* `if newsh['angular_momentum']: newshells.insert(0, newsh)`: no shell is emitted for an empty low part *)
+        unc_spdf_shells max_am t ((match ka with [] => [] | _ => [mkShell (split_function_type (ftype s) ka) (region s) ka (exps s) kc] end) ++ (news ++ out))
       else unc_spdf_shells max_am t (news ++ [s])
     end.
   Definition uncontract_spdf (max_am : Z) (b : basis) : res basis :=
